@@ -70,6 +70,27 @@ func c10Route(r *Run, rawPeer bool) {
 		Latency:    ms([]int{0, 1, 20}[T.Draw("latency", 3)]),
 		ChunkReads: T.Bool("chunkReads", 0.5),
 	}
+	// timeout mode: a short read timeout, caller-chosen stream ids that every sender uses again for its
+	// next request, and a peer that sometimes answers after the timeout: the request then legitimately
+	// fails, but its late answer must never reach the request that uses the same id next
+	timeoutMode := !overflowMode && T.Bool("timeouts", 0.2)
+	readTimeout := time.Hour
+	explicitIds := make([]int16, K)
+	if timeoutMode {
+		readTimeout = ms(200 + T.Draw("timeout.ms", 300))
+		if opts.Capacity < 4096 {
+			opts.Capacity = 4096
+		}
+		if opts.Latency > ms(1) {
+			opts.Latency = ms(1)
+		}
+		for i := range explicitIds {
+			explicitIds[i] = int16(10 + i)
+			if i > 0 && T.Bool("timeout.sharedid", 0.25) {
+				explicitIds[i] = explicitIds[i-1] // two senders compete for one id: the loser is refused
+			}
+		}
+	}
 	r.Config["version"] = v.String()
 	r.Config["compression"] = string(comp)
 	r.Config["maxInFlight"] = fmt.Sprint(N)
@@ -79,6 +100,7 @@ func c10Route(r *Run, rawPeer bool) {
 	r.Config["events"] = fmt.Sprint(nEvents)
 	r.Config["spurious"] = fmt.Sprint(nSpurious)
 	r.Config["overflowMode"] = fmt.Sprint(overflowMode)
+	r.Config["timeoutMode"] = fmt.Sprint(timeoutMode)
 
 	plans := map[string]c10Plan{}
 	paceMs := map[string]int{}
@@ -124,7 +146,7 @@ func c10Route(r *Run, rawPeer bool) {
 
 	r.Go("main", func() {
 		defer func() { mainDone = true }()
-		cc, err := client.VerifNewClientConnection(a, ctx, nil, comp, N, maxPending, time.Hour, handlers)
+		cc, err := client.VerifNewClientConnection(a, ctx, nil, comp, N, maxPending, readTimeout, handlers)
 		if err != nil {
 			r.Event("client conn: %v", err)
 			return
@@ -221,6 +243,10 @@ func c10Route(r *Run, rawPeer bool) {
 				if d := T.DrawP("peer.hold", 30, 0.5); d > 0 {
 					r.Sleep(ms(d))
 				}
+				if timeoutMode && T.Bool("peer.late", 0.3) {
+					r.Sleep(readTimeout + ms(20+T.Draw("peer.late.ms", 200)))
+					r.Probes["answers_sent_after_the_read_timeout"]++
+				}
 				if evLeft > 0 && T.Bool("peer.event", 0.3) {
 					evLeft--
 					tag := fmt.Sprintf("ev%d", nEvents-evLeft)
@@ -273,7 +299,11 @@ func c10Route(r *Run, rawPeer bool) {
 				for j := 0; j < M; j++ {
 					rec := &c10Req{tag: fmt.Sprintf("q%d.%d", i, j)}
 					reqs = append(reqs, rec)
-					qf := queryFrame(v, client.ManagedStreamId, rec.tag)
+					sid := int16(client.ManagedStreamId)
+					if timeoutMode {
+						sid = explicitIds[i]
+					}
+					qf := queryFrame(v, sid, rec.tag)
 					if plans[rec.tag].pages > 1 || (v.IsDse() && len(rec.tag)%2 == 0) {
 						// a DSE continuous-paging request carries its paging options (0 = no page limit)
 						q := qf.Body.Message.(*message.Query)
@@ -365,7 +395,7 @@ func c10Route(r *Run, rawPeer bool) {
 		return
 	}
 	accepted := c10Judge(r, &c10Obs{reqs: reqs, sentPages: sentPages, sentEvents: sentEvents, handlerSeen: handlerSeen, chanEvents: chanEvents,
-		overflowMode: overflowMode, maxPending: maxPending, N: N, nEvents: nEvents})
+		overflowMode: overflowMode, timeoutMode: timeoutMode, maxPending: maxPending, N: N, nEvents: nEvents})
 	r.Nontrivial = accepted >= 2 && r.repoSwitches > 0
 	if r.Spec.Trace {
 		var lines []string
@@ -391,6 +421,7 @@ type c10Obs struct {
 	handlerSeen  [2][]string
 	chanEvents   []string
 	overflowMode bool
+	timeoutMode  bool
 	maxPending   int
 	N            int
 	nEvents      int
@@ -420,7 +451,11 @@ func c10Judge(r *Run, o *c10Obs) int {
 			owner[g] = rec.tag
 		}
 		overflowed := overflowMode && (rec.recvErr != nil || rec.errAtEnd != nil) && len(want) > maxPending
-		if overflowed {
+		timedOut := o.timeoutMode && (rec.recvErr != nil || rec.errAtEnd != nil)
+		if timedOut {
+			r.Probes["requests_timed_out"]++
+		}
+		if overflowed || timedOut {
 			// the request failed because more than MaxPending pages were waiting: what it did receive
 			// must be pages of its own response, in order, each at most once (prefix checks above cover
 			// foreign and duplicate pages)
@@ -430,7 +465,7 @@ func c10Judge(r *Run, o *c10Obs) int {
 					wi++
 				}
 				if wi == len(want) {
-					r.Violate(P, "routing", "pages-out-of-order", "request %s (overflowed MaxPending=%d): received %v, peer sent %v", rec.tag, maxPending, rec.got, want)
+					r.Violate(P, "routing", "pages-out-of-order", "request %s (failed: overflowed MaxPending=%d or timed out): received %v, peer sent %v", rec.tag, maxPending, rec.got, want)
 					break
 				}
 				wi++
